@@ -367,4 +367,7 @@ add("C30", "uniform inverse clamps its argument", "nifty/cl/library/special_dist
 add("C30", "shift inside the log-space table", "nifty/re/num/stats_distributions.py", "        s2i = lambda x: invgamma.ppf(norm._cdf(x), a=a, scale=scale)\n", "        s2i = lambda x: invgamma.ppf(norm._cdf(x), a=a, loc=loc, scale=scale)\n", "R30.8")
 add("C28", "Matern fluctuation integrates the zero mode", "nifty/cl/library/correlated_fields.py", "        self._fluc = (vol1*op).power(2).integrate().sqrt().scale(totvol**-0.5)\n        op = vol0 + vol1*op\n", "        op = vol0 + vol1*op\n        self._fluc = op.power(2).integrate().sqrt().scale(totvol**-0.5)\n", "R28.10")
 add("C28", "spherical mode lengths transformed for the Matern model only", "nifty/re/correlated_field.py", "            mode_lengths=m_length,\n            relative_log_mode_lengths=um,\n            log_volume=log_vol,\n        )\n        grid = HEALPixGrid(", "            mode_lengths=np.sqrt(m_length * (m_length + 1.0)),\n            relative_log_mode_lengths=um,\n            log_volume=log_vol,\n        )\n        grid = HEALPixGrid(", "R28.9")
+add("C18", "KL samples drawn from the Hamiltonian reduced by the wrong key list", "nifty/cl/minimization/kl_energies.py", "    _, ham_sampling = _reduce_by_keys(position, hamiltonian, point_estimates)", "    _, ham_sampling = _reduce_by_keys(position, hamiltonian, invariant)", "R18.7")
+add("C18", "geoVI prior noise with a literal dtype", "nifty/cl/minimization/kl_energies.py", "                              ScalingOperator(fl.domain, 1., prior_dtype),", "                              ScalingOperator(fl.domain, 1., float),", "R18.8")
+add("C18", "likelihood white noise straight from random_like", "nifty/re/evi.py", "    white_sample = _white_noise_like(key, lh.left_sqrt_metric_tangents_shape)", "    white_sample = random_like(key, lh.left_sqrt_metric_tangents_shape)", "R18.11")
 VARIANTS = V
